@@ -1,10 +1,12 @@
 import P9Model.Conc.RWMutex
-import P9Model.Lemmas.LockFacts
+import P9Model.Conc.Guards
+import P9Model.Lemmas.Lock.Contract
+import P9Model.Lemmas.Lock.OpenOnce
 /-!
 # C07 — Backend concurrency contract of the File interface (path-tree locking)
 -/
 namespace P9.C07
-open P9
+open P9 P9.Guards
 
 /-- O1 (**guards meet the contract**, regenerated from handlers.go / server.go / path_tree.go):
 every backend call a request handler makes sits inside the guard its class demands, on the
@@ -16,17 +18,6 @@ theorem guards_meet_contract : Locks.guardsMeetContract = true := Locks.contract
 /-- O2 (**Open at most once**): `Open` is only reached inside the per-reference critical section
 that also tests and sets `opened` (the D8 `fix:`). -/
 theorem open_inside_opened_section : Locks.openOnceOk = true := Locks.open_once_fact
-
-/-- two guards are compatible when both can be held at once: RWMutex semantics on each shared
-lock instance – a write hold excludes everything, read holds share -/
-def compatible (a b : List (Nat × Bool)) : Bool :=
-  a.all fun (la, wa) => b.all fun (lb, wb) => la != lb || (!wa && !wb)
-
-/-- lock instances: 0 = renameMu, `n+1` = opMu of path node `n`; `true` = write -/
-def guardRead (node : Nat) : List (Nat × Bool) := [(0, false), (node + 1, false)]
-def guardWrite (node : Nat) : List (Nat × Bool) := [(0, false), (node + 1, true)]
-def guardUnlink (dir child : Nat) : List (Nat × Bool) := [(0, false), (dir + 1, true), (child + 1, true)]
-def guardGlobal : List (Nat × Bool) := [(0, true)]
 
 /-- **The contract, from the guards**: write-class calls on a path exclude each other and every
 read-class call on that path; UnlinkAt also excludes every call on the entry being removed;
